@@ -49,8 +49,19 @@ func escape(b *bytes.Buffer, r rune, force bool) {
 			b.WriteString(s)
 			break
 		}
+		s := strconv.FormatInt(int64(r), 16)
+		if r > 0xffff {
+			// \u takes exactly four hex digits; runes beyond the BMP need the braced form
+			b.WriteString(`\x{`)
+			b.WriteString(s)
+			b.WriteRune('}')
+			break
+		}
 		b.WriteString(`\u`)
-		b.WriteString(strconv.FormatInt(int64(r), 16))
+		for i := len(s); i < 4; i++ {
+			b.WriteRune('0')
+		}
+		b.WriteString(s)
 	}
 }
 
